@@ -39,6 +39,7 @@ type xOutput struct {
 	withVar  bool
 	guard    string // "" | accept | reject | atleast2
 	inverted bool
+	bang     bool // the pattern's variable is named "?v!" (a permanent binding) instead of "?v"
 	propVar  bool // the pattern is {"?p": key}: some property (which one is left open) has the value
 }
 
@@ -57,7 +58,10 @@ type xStep struct {
 	exitAfter int
 }
 
-func xGuardSrc(kind string) *core.ActionSource {
+func xGuardSrc(kind string, bang bool) *core.ActionSource {
+	if kind == "atleast2" && bang {
+		return &core.ActionSource{Interpreter: "ecmascript", Source: `return (_.bindings["?v!"] >= 2) ? _.bindings : null;`}
+	}
 	switch kind {
 	case "accept":
 		return &core.ActionSource{Interpreter: "ecmascript", Source: `return _.bindings;`}
@@ -118,6 +122,7 @@ func runC19(c *sim.Ctx, t *testing.T) {
 				o.propVar = true
 			}
 			if o.withVar {
+				o.bang = c.Chance(1, 3, "bangvar")
 				o.guard = []string{"", "accept", "atleast2", "atleast2"}[c.Intn(4, "guard")]
 			} else {
 				o.guard = []string{"", "", "accept"}[c.Intn(3, "guard2")]
@@ -255,17 +260,24 @@ func runC19(c *sim.Ctx, t *testing.T) {
 			pat := map[string]interface{}{"k": o.key}
 			if o.inverted {
 				pat = map[string]interface{}{"bad": o.key}
+			} else if o.withVar && o.bang {
+				pat["v"] = "?v!"
 			} else if o.withVar {
 				pat["v"] = "?v"
 			} else if o.propVar {
 				// the only property of the stream's messages that can hold the key is "k"
 				pat = map[string]interface{}{"?p": o.key}
 			}
-			iop.OutputSet = append(iop.OutputSet, Output{Pattern: pat, GuardSource: xGuardSrc(o.guard), Inverted: o.inverted})
+			iop.OutputSet = append(iop.OutputSet, Output{Pattern: pat, GuardSource: xGuardSrc(o.guard, o.bang), Inverted: o.inverted})
 		}
 		sess.IOs = append(sess.IOs, iop)
 	}
 
+	// fault of the whole session: the caller's context ends while it runs
+	xCancelAt = 0
+	if c.Chance(1, 6, "cancel") {
+		xCancelAt = []time.Duration{20 * time.Millisecond, 80 * time.Millisecond, 300 * time.Millisecond, time.Second}[c.Intn(4, "cancelat")]
+	}
 	nruns := 1
 	if c.Chance(1, 3, "rerun") {
 		// a harness that runs one parsed session file again (a retry): the same Session value
@@ -281,7 +293,7 @@ func runC19(c *sim.Ctx, t *testing.T) {
 	for _, st := range steps {
 		shape += fmt.Sprintf("%d%s/", len(st.outputs), st.fault)
 	}
-	c.Path = shape + fmt.Sprint(runErr == nil)
+	c.Path = shape + fmt.Sprint(runErr == nil, xCancelAt)
 	c.Trivial = false
 	c.Sample = map[string]interface{}{"steps": shape, "runs_of_the_session": nruns, "tool_error": errText(runErr)}
 }
@@ -292,6 +304,9 @@ func errText(err error) string {
 	}
 	return err.Error()
 }
+
+// xCancelAt: when (after the start of a run) the session's context is cancelled; 0 = never.
+var xCancelAt time.Duration
 
 // xRunOnce runs the session once against a fresh simulated child and applies the
 // oracle; returns false after recording a violation (or when nothing more can be said).
@@ -348,6 +363,13 @@ func xRunOnce(c *sim.Ctx, t *testing.T, sess *Session, steps []*xStep, runNo int
 			endedAt = s.Now()
 			lg.Add(sim.Ev{Kind: "returned", Err: errText(runErr)})
 		})
+		if xCancelAt > 0 {
+			s.Go("canceller", func(tk *sim.Task) {
+				sim.Sleep(xCancelAt)
+				lg.Add(sim.Ev{Kind: "cancel"})
+				cancel()
+			})
+		}
 		s.StopWhen = func() bool { return returned }
 		s.Run()
 		cancel()
@@ -386,8 +408,11 @@ func xRunOnce(c *sim.Ctx, t *testing.T, sess *Session, steps []*xStep, runNo int
 	// the stream as the child produced it
 	readAt := map[int]time.Duration{}
 	var stream []emitted
+	cancelledAt := time.Duration(-1)
 	for _, e := range evs {
 		switch e.Kind {
+		case "cancel":
+			cancelledAt = e.At
 		case "input":
 			readAt[int(e.N)] = e.At
 		case "line":
@@ -410,7 +435,7 @@ func xRunOnce(c *sim.Ctx, t *testing.T, sess *Session, steps []*xStep, runNo int
 			if o.inverted {
 				continue
 			}
-			ok, anywhere := false, false
+			ok, anywhere, byCancel := false, false, false
 			for _, ln := range stream {
 				var m map[string]interface{}
 				if json.Unmarshal([]byte(ln.text), &m) != nil {
@@ -422,6 +447,11 @@ func xRunOnce(c *sim.Ctx, t *testing.T, sess *Session, steps []*xStep, runNo int
 				anywhere = true
 				r, started := readAt[i]
 				if ln.step <= i && (!started || ln.at < r+to) {
+					if cancelledAt >= 0 && ln.at >= cancelledAt {
+						// written only after the caller had given up: cannot have counted
+						byCancel = true
+						continue
+					}
 					ok = true
 					if ln.step == i && ln.pos > lastNeeded {
 						lastNeeded = ln.pos
@@ -435,6 +465,10 @@ func xRunOnce(c *sim.Ctx, t *testing.T, sess *Session, steps []*xStep, runNo int
 			if !ok && why == "" {
 				why = fmt.Sprintf("step %d: no line accepted for expected output k=%s arrived before the timeout", i, o.key)
 				faultOf = st.fault
+				if byCancel {
+					why = fmt.Sprintf("step %d: the only lines accepted for expected output k=%s were written after the context had been cancelled (at %v)", i, o.key, cancelledAt)
+					faultOf = "cancel"
+				}
 			}
 		}
 		for _, o := range st.outputs {
